@@ -6,6 +6,7 @@ import (
 	"go/token"
 	"go/types"
 	"math"
+	"strconv"
 	"strings"
 
 	"golang.org/x/tools/go/ssa"
@@ -584,8 +585,60 @@ func (w *World) strEq(x, y Value) Value {
 		}
 		return r
 	}
+	// texts produced by FormatInt/FormatUint/Itoa are compared through the numbers behind them
+	if r, ok := w.strEqByOrigin(x, y); ok {
+		return r
+	}
+	if r, ok := w.strEqByOrigin(y, x); ok {
+		return r
+	}
 	// a BStr against a String term of unknown length
 	return w.tf.def(sortBool, "(= "+w.strTerm(x).S+" "+w.strTerm(y).S+")")
+}
+
+func (w *World) originOf(v Value) (*Term, bool, bool) {
+	t, ok := v.(*Term)
+	if !ok {
+		return nil, false, false
+	}
+	if o, ok := w.fmtOrigin[t.S]; ok {
+		return o, false, true
+	}
+	if o, ok := w.fmtOriginS[t.S]; ok {
+		return o, true, true
+	}
+	return nil, false, false
+}
+
+func (w *World) strEqByOrigin(x, y Value) (Value, bool) {
+	ox, signed, ok := w.originOf(x)
+	if !ok {
+		return nil, false
+	}
+	if tx, ok := x.(*Term); ok {
+		if ty, ok := y.(*Term); ok && tx.S == ty.S {
+			return true, true
+		}
+	}
+	if oy, signedY, ok := w.originOf(y); ok && signedY == signed && oy.Sort.W == ox.Sort.W {
+		return w.intEq(ox, oy, ox.Sort.W), true
+	}
+	if c, ok := normStr(y).(string); ok {
+		// a formatted number equals c only if c is the canonical decimal of a value of that width
+		if signed {
+			n, err := strconv.ParseInt(c, 10, ox.Sort.W)
+			if err != nil || strconv.FormatInt(n, 10) != c {
+				return false, true
+			}
+			return w.intEq(ox, n, ox.Sort.W), true
+		}
+		n, err := strconv.ParseUint(c, 10, ox.Sort.W)
+		if err != nil || strconv.FormatUint(n, 10) != c {
+			return false, true
+		}
+		return w.intEq(ox, int64(n), ox.Sort.W), true
+	}
+	return nil, false
 }
 
 func (w *World) intEq(x, y Value, width int) Value {
